@@ -188,6 +188,14 @@ func (b memBucket) Iter() iter.Seq2[[]byte, []byte] {
 				return
 			}
 		}
+		// keys that only exist in the unflushed overlay
+		for key, val := range b.db.puts[b.name] {
+			if _, ok := b.db.buckets[b.name][key]; ok {
+				continue
+			} else if !yield([]byte(key), val) {
+				return
+			}
+		}
 	}
 }
 
